@@ -10,7 +10,8 @@ VARIABLE hist
 gvars == <<vars, hist>>
 
 Ordered(g) == \A k \in Guards : k < g => gpc[k] # "held"
-Rec(who, g) == [who |-> who, g |-> g, count |-> count', wpc |-> wpc', epoch |-> epoch']
+Rec(who, g) == [who |-> who, g |-> g, count |-> count', wpc |-> wpc', epoch |-> epoch',
+                exit |-> IF g = 0 THEN "none" ELSE exitk'[g]]
 Terminal == wpc = "Done" /\ \A g \in Guards : gpc[g] = "done"
 
 GenStep == \/ \E g \in Guards : /\ Ordered(g) /\ G1(g) /\ hist' = Append(hist, Rec("G1", g))
